@@ -140,7 +140,8 @@ def gen(item, rng, tier):
             h = rng.choice(hot)
             ops.insert(at, {'op': 'burst', 'path': 'hub', 'addr': h['addr'], 'size': h['size'], 'value': 0,
                             'n': (1 << 22) + rng.randrange(1, 1 << 18) if tier == 'quick' else rng.choice([1 << 22, 1 << 23, 1 << 24]) + rng.randrange(1, 1 << 18)})
-    return {'scenario': 'hub', 'style': style, 'devices': devs, 'ops': ops, 'via_add_memory': bool(rng.getrandbits(1))}
+    how = rng.choice(['append', 'add_memory', 'memory_list'])
+    return {'scenario': 'hub', 'style': style, 'devices': devs, 'ops': ops, 'via_add_memory': how == 'add_memory', 'via_memory_list': how == 'memory_list'}
 
 
 class Model:
@@ -199,7 +200,18 @@ def run(case):
     r.cpsr.value = 0x1D3
     model = Model(case['devices'])
     rams = []
-    for d in case['devices']:
+    from_list = bool(case.get('via_memory_list')) and not any('alias_of' in d or 'ram_size' in d or d.get('rec') for d in case['devices'])
+    if from_list:
+        # the whole hub built the way ArmV6.__init__ builds it from a configuration file: MemoryControllerHub.from_memory_list(), in the listed order
+        arm.mem = type(arm.mem).from_memory_list([{'mem_type': 'RAM', 'beginning': d['begin'], 'end': d['end']} for d in case['devices']])
+    for j, d in enumerate(case['devices']):
+        if from_list:
+            ram = arm.mem.memories[j].mem if j < len(arm.mem.memories) else RAM(d['end'] - d['begin'])
+            if d.get('fill'):
+                f = _fill(d)
+                ram.memory_array[0:len(f)] = f
+            rams.append(ram)
+            continue
         if 'alias_of' in d:
             ram = rams[d['alias_of']]
             arm.mem.memories.append(MemoryController(ram, d['begin'], d['end']))
